@@ -109,6 +109,7 @@ type ivAnalysis struct {
 	maxPaths int
 	paths    int
 	aborted  bool
+	stopAt   ssa.Instruction // optional: stop a path once this (loop-free) instruction was observed
 	depth    int
 	// param bindings when inlining: callee parameter -> caller value
 	bind map[ssa.Value]ssa.Value
@@ -434,6 +435,10 @@ func (a *ivAnalysis) runFrom(b *ssa.BasicBlock, st *ivState, visits map[*ssa.Bas
 			if a.observe != nil {
 				a.observe(in, st, a)
 			}
+			if a.stopAt != nil && in == a.stopAt && a.depth == 0 {
+				// the observed instruction is not inside a loop: nothing after it can change what was observed
+				return
+			}
 			switch x := in.(type) {
 			case *ssa.Phi:
 				// handled on edge entry (see enter)
@@ -555,6 +560,9 @@ func rangeAt(f *ssa.Function, at ssa.Instruction, v ssa.Value, cell string, cell
 			j := res.join(iv)
 			res = &j
 		}
+	}
+	if at != nil && at.Parent() == f && innermostLoopHeader(at.Block()) == nil {
+		a.stopAt = at
 	}
 	a.runFrom(f.Blocks[0], newIvState(), map[*ssa.BasicBlock]int{}, nil)
 	if res == nil || a.aborted {
